@@ -317,8 +317,12 @@ def run(ctx):
                     viol("superpose|not-optimal|%s|%s|size-%g" % (hk, sel_mode, scale) if scale < 0.1 else "superpose|not-optimal|%s|%s" % (hk, sel_mode),
                          "after superpose the alignment atoms are %.6g nm (rms) from the reference, the minimum is %.6g (n=%d, size %g nm, %s, frame %d)" % (after, rm, n, scale, kind, f), rp)
                 # model rotation
-                if n <= 64 and not degenerate:
+                # (the rotation itself is compared only where it is determined: with the two largest eigenvalues closer than 1 % every rotation
+                # in their plane is optimal to within the budget, and the adjugate construction of the kernel and the model's power iteration may
+                # pick different ones; optimality of what superpose attains is checked above for every case)
+                if n <= 64 and not degenerate and gaprel >= 1e-2:
                     rreqs.append("qrot %d %s %s" % (n, rat(lam), coords))
+                    desc = dict(desc, _gaprel=float(gaprel), _size=float(size))
                     rmeta.append((k, f, desc, rp, X0, X1, selA, ref[frame, selB].astype(np.float64), size, coord_eps + 2e-5 * size / max(gaprel, 1e-3)))     # the eigenvector (rotation) error grows like 1 / gap
         if sup is not None and (not np.array_equal(ts.time, np.arange(nfr) * 2.0)):
             viol("superpose|time", "superpose changed the time stamps", rp)
@@ -408,7 +412,7 @@ def run(ctx):
         ctx.count("model rotations compared")
         err = np.abs(pred - X1).max()
         if err > 5e-3 * size + 8 * coord_eps:
-            ctx.broke("correspondence:qrot", "case %d frame %d (%s, n=%d): superposed coordinates differ from the model rotation by %.4g nm" % (k, f, desc["kind"], desc["n_atoms"], err))
+            ctx.broke("correspondence:qrot", "case %d frame %d (%s, n=%d): superposed coordinates differ from the model rotation by %.4g nm [relative eigenvalue gap %.3g, size %.3g]" % (k, f, desc["kind"], desc["n_atoms"], err, desc.get("_gaprel", -1), desc.get("_size", -1)))
     for key, (what, rp) in seen.items():
         ctx.violation(key, what, rp)
 
